@@ -71,6 +71,15 @@ var quickDFS = []config{
 	// after a failure: Pop / PopWait(0) returning false (empty, lost CAS) followed by
 	// ordinary calls in the same thread
 	{ninit: 0, progs: [][]string{p("o", "u11", "o"), p("z", "u21", "l")}, max: 1200},
+	// a Len() observer against COMPLETE Push+Pop pairs of another thread on a PRE-FILLED
+	// list (k values stay poppable during the whole Len call; with more pairs than k a
+	// Len() that subtracts what it does not add goes negative), pairs split over two
+	// threads, and pop-then-push movers.  The scheduler parks a goroutine in front of every
+	// atomic access, so a Len() made of several loads is cut between any two of them.
+	{ninit: 2, progs: [][]string{p("l"), p("u21", "o")}},
+	{ninit: 1, progs: [][]string{p("l", "l"), p("u21", "o", "u22", "o")}, max: 1500},
+	{ninit: 2, progs: [][]string{p("l"), p("u21"), p("o")}, max: 1500},
+	{ninit: 1, progs: [][]string{p("l", "l"), p("o", "u21", "o", "u22")}, max: 1500},
 }
 
 var thoroughDFS = []config{
@@ -198,6 +207,23 @@ func corpus() []core.Case {
 		// expiry on the 3rd tick with nothing ever pushed, then ordinary calls (class 3)
 		core.Case{Tag: "corpus-timed", Lines: []string{"@ C11 list 0 T t3 u5 o l", "drain", "final"}},
 	)
+	// the witness of Golib/Findings/C11TwoCounter.lean (seed C11-K): the Len() caller performs
+	// one access, the other thread completes Push+Pop (5+5 scheduled accesses), the caller
+	// goes on.  On the code as it is Len() is ONE load (the first `step 0` returns, the last
+	// one is an idle step); on a Len() made of two loads the pair falls between them.
+	kw := func(ninit int) core.Case {
+		lines := []string{fmt.Sprintf("@ C11 list %d T l T u7 o", ninit), "step 0"}
+		for i := 0; i < 10; i++ {
+			lines = append(lines, "step 1")
+		}
+		return core.Case{Tag: "corpus-len-window", Lines: append(lines, "step 0", "drain", "final")}
+	}
+	cases = append(cases, kw(1), kw(0), kw(3),
+		// … and the caller parked IN FRONT of its Len() across two pairs
+		core.Case{Tag: "corpus-len-window", Lines: []string{"@ C11 list 1 T l l T u7 o u8 o",
+			"step 1", "step 1", "step 1", "step 1", "step 1", "step 1", "step 1", "step 1", "step 1", "step 1",
+			"step 0", "step 1", "step 1", "step 1", "step 1", "step 1", "step 1", "step 1", "step 1", "step 1", "step 1",
+			"step 0", "drain", "final"}})
 	for _, k := range []int{30, 300, 765, 771, 774, 780, 900, 1600} {
 		cases = append(cases, starvedPusher(k, 3), starvedPusher(k, 4))
 	}
@@ -231,10 +257,111 @@ func corpus() []core.Case {
 	return cases
 }
 
+// parkedWindow: one thread (the victim) is parked after `park` of its own atomic accesses
+// — inside a call, or in front of the first access of one — while the other threads, one
+// after the other in a random order, run `burst` steps each (whole calls: a Push is 5
+// accesses, a Pop at most 5); then the victim resumes and everything is drained.  With a
+// Len() observer as victim and Push/Pop movers on a pre-filled list these are the
+// schedules on which a Len() composed of several atomic loads returns a mixture of two
+// instants; with a pusher or popper as victim they are the long-stall windows (link CAS
+// done / head loaded, then nothing for many operations of the others).
+func parkedWindow(r *core.Rand, tier string) core.Case {
+	cfg := config{ninit: r.Pick(2, 3, 3, 2, 1)}
+	nmov := r.Range(1, 2)
+	observer := r.Intn(4) != 0
+	var victim []string
+	if observer {
+		for k, n := 0, r.Range(1, 2); k < n; k++ {
+			victim = append(victim, "l")
+		}
+		if r.Intn(3) == 0 {
+			victim = append([]string{[]string{"o", "u901", "z"}[r.Intn(3)]}, victim...)
+		}
+	} else {
+		victim = []string{[]string{"o", "u901", "z", "t1"}[r.Intn(4)], "l"}
+	}
+	cfg.progs = append(cfg.progs, victim)
+	for t := 1; t <= nmov; t++ {
+		var prog []string
+		pairs := r.Range(1, 3)
+		if tier == "thorough" {
+			pairs = r.Range(1, 5)
+		}
+		popFirst := r.Intn(3) == 0
+		for k := 0; k < pairs; k++ {
+			u := fmt.Sprintf("u%d", 100*t+k)
+			switch {
+			case nmov == 2 && r.Intn(3) == 0:
+				// the pair is split: this thread only pushes or only pops
+				if t == 1 {
+					prog = append(prog, u)
+				} else {
+					prog = append(prog, "o")
+				}
+			case popFirst:
+				prog = append(prog, "o", u)
+			default:
+				prog = append(prog, u, "o")
+			}
+		}
+		if r.Intn(4) == 0 {
+			prog = append(prog, "l")
+		}
+		cfg.progs = append(cfg.progs, prog)
+	}
+	cfg.uni = r.Intn(5) == 0
+	e := factory(cfg.ninit, cfg.progs, cfg.procs())()
+	defer e.Close()
+	var lines []string
+	step := func(t int) {
+		e.Step(t)
+		lines = append(lines, fmt.Sprintf("step %d", t))
+	}
+	// warm-up: the victim's leading call (if any) and a few steps of the movers
+	for k, n := 0, r.Intn(4); k < n && !e.AllDone(); k++ {
+		t := r.Intn(e.N())
+		if !e.Done(t) {
+			step(t)
+		}
+	}
+	park := r.Pick(3, 4, 3, 2, 1, 1, 1) // 0: in front of the call's first access
+	if !observer {
+		park = r.Range(1, 5)
+	} else if len(victim) > 0 && victim[0] != "l" {
+		park += 5
+	}
+	for k := 0; k < park && !e.Done(0) && !e.Hung; k++ {
+		step(0)
+	}
+	order := []int{1, 2}[:nmov]
+	if nmov == 2 && r.Intn(2) == 0 {
+		order[0], order[1] = order[1], order[0]
+	}
+	for round, rounds := 0, r.Range(1, 2); round < rounds; round++ {
+		for _, t := range order {
+			burst := r.Pick(1, 2, 3, 2) // whole calls
+			for k := 0; k < 6*(burst+1) && !e.Done(t) && !e.Hung; k++ {
+				step(t)
+				if burst < 3 && r.Intn(12) == 0 {
+					break
+				}
+			}
+		}
+		if r.Intn(2) == 0 && !e.Done(0) {
+			step(0) // the victim's next access, then a further window
+		}
+	}
+	lines = append(lines, "drain", "final")
+	return core.Case{Tag: "parked-window", Lines: append([]string{cfg.header()}, lines...)}
+}
+
 func gen(r *core.Rand, tier string) core.Case {
 	if r.Intn(60) == 0 {
 		// long starvation of one pusher by a parked one (any threshold up to ~1300 spins)
 		return starvedPusher(r.Range(6, 4000), r.Range(3, 4))
+	}
+	if r.Intn(8) == 0 {
+		return parkedWindow(r, tier)
 	}
 	nthreads := r.Range(2, 4)
 	maxOps := 3
